@@ -70,6 +70,10 @@ func runC12(s *core.Sim, tier string) RunInfo {
 		}
 	}
 	top := first + k // first height not stored
+	if k >= 1 && s.Tape.Coin("waiters-across-wipe-or-restart", 1, 5) {
+		runC12Lifecycle(s, w, first, top, &hist)
+		return info()
+	}
 	// --- plan writers: runs placed relative to `top`
 	type run struct{ from, to uint64 }
 	nw := 1 + s.Tape.Draw("writers", 2)
@@ -237,4 +241,78 @@ func runC12(s *core.Sim, tier string) RunInfo {
 		r.cancel()
 	}
 	return info()
+}
+
+// runC12Lifecycle: readers are already waiting for a height when the store is emptied by a
+// whole-chain deletion, or stopped and started again (the same object); the height is appended
+// afterwards. They are still owed the header.
+func runC12Lifecycle(s *core.Sim, w *SW, first, top uint64, hist *[]string) {
+	target := top + uint64(s.Tape.Draw("target-off", 4))
+	type waiter struct {
+		got *H
+		err error
+		t   *core.Task
+	}
+	nr := 1 + s.Tape.Draw("readers", 2)
+	ws := make([]*waiter, nr)
+	rctx, rcancel := context.WithTimeout(context.Background(), time.Hour)
+	defer func() { rcancel(); s.Quiesce(0) }() // nobody is left waiting when the run ends
+	for i := range ws {
+		wt := &waiter{}
+		ws[i] = wt
+		wt.t = s.Go(fmt.Sprintf("reader%d", i), func() {
+			wt.got, wt.err = w.St.GetByHeight(rctx, target)
+		})
+	}
+	first = w.M.Tail // (the tail may have been pruned already)
+	s.Quiesce(time.Second) // they are subscribed and waiting now
+	event := core.Pick(s.Tape, "lifecycle-event", []string{"wipe", "restart"})
+	*hist = append(*hist, fmt.Sprintf("%d readers wait for %d; then %s; then append %d..%d", nr, target, event, top, target))
+	switch event {
+	case "wipe":
+		if err := w.Delete(first, top); err != nil {
+			s.Violate("delete-rejected", map[string]string{"range": "whole"}, "DeleteRange(%d,%d) of the whole chain: %v", first, top, err)
+			return
+		}
+	case "restart":
+		if err := w.Stop(); err != nil {
+			s.Violate("stop-error", nil, "Stop: %v", err)
+			return
+		}
+		var err error
+		if _, fin := s.Do("start-again", opBudget, func() { err = w.St.Start(context.Background()) }); !fin || err != nil {
+			s.Violate("start-error", map[string]string{"same": "object"}, "Start of the same object: finished=%v err=%v", fin, err)
+			return
+		}
+	}
+	s.Probe("waiters-across-" + event)
+	if err := w.Append(w.Ch.Range(top, target)...); err != nil {
+		s.Violate("append-error", nil, "Append(%d..%d): %v", top, target, err)
+		return
+	}
+	if err := w.Sync(); err != nil {
+		s.Violate("sync-error", nil, "Sync: %v", err)
+		return
+	}
+	var tasks []*core.Task
+	for _, wt := range ws {
+		tasks = append(tasks, wt.t)
+	}
+	stuck := s.Settle(10*time.Minute, tasks...)
+	for i, wt := range ws {
+		if wt.t.Panic != nil {
+			s.Violate("panic", map[string]string{"op": "GetByHeight"}, "reader panicked: %v", wt.t.Panic)
+			return
+		}
+		blocked := false
+		for _, st := range stuck {
+			if st == wt.t {
+				blocked = true
+			}
+		}
+		if blocked || wt.err != nil || !simhdr.Equal(wt.got, w.Ch.At(target)) {
+			s.Violate("lost-wakeup", map[string]string{"across": event}, "reader%d was waiting for height %d when the store was %s; %d..%d were appended and synced afterwards, but the reader: blocked=%v got=%v err=%v [%s]", i, target, map[string]string{"wipe": "emptied by a whole-chain deletion", "restart": "stopped and started again"}[event], top, target, blocked, wt.got, wt.err, w.cfg())
+			return
+		}
+	}
 }
